@@ -25,7 +25,8 @@ use tt::tungstenite::protocol::WebSocketConfig;
 
 const T_CASE: Duration = Duration::from_secs(90);
 const T_JOIN: Duration = Duration::from_secs(40);
-const IDLE: Duration = Duration::from_millis(350);
+const IDLE_CLIENT: Duration = Duration::from_millis(350);
+const IDLE_SERVER: Duration = Duration::from_secs(4);
 const RAW_MAX: usize = 1500;
 
 fn hx(v: u64) -> String { format!("{v:x}") }
@@ -267,17 +268,24 @@ impl Obs {
 
 // ------------------------------------------------------------------ raw TCP peer
 
-struct Ctl { received: AtomicU64, eof: AtomicBool, resumed: AtomicBool, last_ms: AtomicU64, closing: AtomicBool, start: Instant }
+struct Ctl { received: AtomicU64, eof: AtomicBool, resumed: AtomicBool, last_ms: AtomicU64, empty_ms: AtomicU64, idle_limit: u64, closing: AtomicBool, start: Instant }
 impl Ctl {
-    fn new() -> Arc<Ctl> { Arc::new(Ctl { received: AtomicU64::new(0), eof: AtomicBool::new(false), resumed: AtomicBool::new(false), last_ms: AtomicU64::new(0), closing: AtomicBool::new(false), start: Instant::now() }) }
+    /// `idle_limit`: how long the reading peer must have found nothing to read
+    /// (counted by the reader itself, in empty reads, so that a starved reader
+    /// thread does not count) before the stream is taken to be drained although
+    /// neither the expected byte count nor the end of the stream was seen.
+    /// Short when every write has already returned (clients), long when the
+    /// sender may still be computing (servers).
+    fn new(idle_limit: Duration) -> Arc<Ctl> { Arc::new(Ctl { received: AtomicU64::new(0), eof: AtomicBool::new(false), resumed: AtomicBool::new(false), last_ms: AtomicU64::new(0), empty_ms: AtomicU64::new(0), idle_limit: idle_limit.as_millis() as u64, closing: AtomicBool::new(false), start: Instant::now() }) }
     fn now_ms(&self) -> u64 { self.start.elapsed().as_millis() as u64 }
-    fn touch(&self) { self.last_ms.store(self.now_ms(), Ordering::SeqCst); }
+    fn touch(&self) { self.last_ms.store(self.now_ms(), Ordering::SeqCst); self.empty_ms.store(0, Ordering::SeqCst); }
+    fn empty_read(&self, ms: u64) { self.empty_ms.fetch_add(ms, Ordering::SeqCst); }
     fn idle_for(&self) -> Duration { Duration::from_millis(self.now_ms().saturating_sub(self.last_ms.load(Ordering::SeqCst))) }
     /// the peer has everything the endpoint will send for now: end of stream,
-    /// or the expected byte count, or (after the stall) nothing new for a while
+    /// or the expected byte count, or (after the stall) nothing to read for a while
     fn drained(&self, expected: u64) -> bool {
         self.eof.load(Ordering::SeqCst) || self.received.load(Ordering::SeqCst) >= expected
-            || (self.resumed.load(Ordering::SeqCst) && self.idle_for() > IDLE)
+            || (self.resumed.load(Ordering::SeqCst) && self.empty_ms.load(Ordering::SeqCst) > self.idle_limit)
     }
 }
 fn wait_drained(ctl: &Ctl, expected: u64) {
@@ -343,6 +351,7 @@ fn reader_loop(mut s: TcpStream, ctl: Arc<Ctl>, stall: Duration, respond: bool, 
                 }
             }
             Err(e) if matches!(e.kind(), std::io::ErrorKind::WouldBlock | std::io::ErrorKind::TimedOut) => {
+                ctl.empty_read(20);
                 if ctl.closing.load(Ordering::SeqCst) && ctl.idle_for() > Duration::from_millis(1500) { break; }
             }
             Err(e) if e.kind() == std::io::ErrorKind::Interrupted => {}
@@ -402,7 +411,7 @@ fn run_client(sp: &Spec) -> Result<Obs, String> {
     let intents = build_intents(sp);
     let l = raw_listener(sp.rcv).map_err(|e| format!("listen:{e}"))?;
     let addr = l.local_addr().map_err(|e| e.to_string())?;
-    let ctl = Ctl::new();
+    let ctl = Ctl::new(IDLE_CLIENT);
     let (c2, stall, cap) = (ctl.clone(), Duration::from_millis(sp.stall), expected_total(sp, &intents, true) as usize + 4096);
     let reader = std::thread::spawn(move || match accept_with_deadline(&l) { Ok(s) => reader_loop(s, c2, stall, true, cap), Err(_) => vec![] });
     let client = Client::connect(addr).map_err(|e| format!("connect:{e}"))?;
@@ -462,7 +471,7 @@ fn run_aclient(sp: &Spec) -> Result<Obs, String> {
     let intents = Arc::new(build_intents(sp));
     let l = raw_listener(sp.rcv).map_err(|e| format!("listen:{e}"))?;
     let addr = l.local_addr().map_err(|e| e.to_string())?;
-    let ctl = Ctl::new();
+    let ctl = Ctl::new(IDLE_CLIENT);
     let (c2, stall, cap) = (ctl.clone(), Duration::from_millis(sp.stall), expected_total(sp, &intents, true) as usize + 4096);
     let reader = std::thread::spawn(move || match accept_with_deadline(&l) { Ok(s) => reader_loop(s, c2, stall, true, cap), Err(_) => vec![] });
     let (sp2, in2, ctl2) = (sp.clone(), intents.clone(), ctl.clone());
@@ -569,7 +578,7 @@ where S: futures_util::Stream<Item = Result<WsMsg, tt::tungstenite::Error>> + fu
     loop {
         if ctl.start.elapsed() > T_CASE { break; }
         match tokio::time::timeout(Duration::from_millis(20), ws.next()).await {
-            Err(_) => { if ctl.closing.load(Ordering::SeqCst) && ctl.idle_for() > Duration::from_millis(1500) { break; } }
+            Err(_) => { ctl.empty_read(20); if ctl.closing.load(Ordering::SeqCst) && ctl.idle_for() > Duration::from_millis(1500) { break; } }
             Ok(None) | Ok(Some(Err(_))) | Ok(Some(Ok(WsMsg::Close(_)))) => { ctl.eof.store(true, Ordering::SeqCst); break; }
             Ok(Some(Ok(WsMsg::Binary(b)))) => {
                 let b: Vec<u8> = b.into();
@@ -596,7 +605,7 @@ fn run_wsclient(sp: &Spec) -> Result<Obs, String> {
     let l = raw_listener(sp.rcv).map_err(|e| format!("listen:{e}"))?;
     let addr = l.local_addr().map_err(|e| e.to_string())?;
     l.set_nonblocking(true).map_err(|e| e.to_string())?;
-    let ctl = Ctl::new();
+    let ctl = Ctl::new(IDLE_CLIENT);
     let (sp2, in2, ctl2) = (sp.clone(), intents.clone(), ctl.clone());
     let out: Result<(Vec<(u32, u32, &'static str)>, Vec<String>, bool, Vec<Vec<u8>>), String> = net::runtime().block_on(async move {
         let sp = sp2; let intents = in2; let ctl = ctl2;
@@ -771,7 +780,7 @@ fn run_tcp_server(sp: &Spec) -> Result<Obs, String> {
     let addr = server_addr(&sp.ep, sp.wt)?;
     let mut s = raw_connect(addr, sp.rcv).map_err(|e| format!("connect:{e}"))?;
     s.set_write_timeout(Some(Duration::from_secs(5))).map_err(|e| e.to_string())?;
-    let ctl = Ctl::new();
+    let ctl = Ctl::new(IDLE_SERVER);
     let (c2, stall, cap) = (ctl.clone(), Duration::from_millis(sp.stall), expected_total(sp, &intents, true) as usize + 4096);
     let rs = s.try_clone().map_err(|e| e.to_string())?;
     let reader = std::thread::spawn(move || reader_loop(rs, c2, stall, false, cap));
@@ -815,7 +824,7 @@ fn push_with_retry(p: &PeerHandle, path: &str, body: Vec<u8>) -> Result<(), Stri
 fn run_wsserver(sp: &Spec) -> Result<Obs, String> {
     let intents = Arc::new(build_intents(sp));
     let addr = server_addr("wsserver", 0)?;
-    let ctl = Ctl::new();
+    let ctl = Ctl::new(IDLE_SERVER);
     *last_peer().lock().unwrap() = None;
     let s = raw_connect(addr, sp.rcv).map_err(|e| format!("connect:{e}"))?;
     s.set_nonblocking(true).map_err(|e| e.to_string())?;
@@ -955,6 +964,12 @@ fn case_line(i: usize, ep: &str, sc: &str, totals: &[Vec<usize>], kinds: &[char]
         victim.map(|v| hx(v as u64)).unwrap_or_else(|| "-".into()), hx(abort), hx(vdelay), hx(seed), j(&flens), hx(nw as u64))
 }
 
+/// an off-reader response handler runs concurrently with the next one: two
+/// responses of one connection are then two concurrent writers, so such a
+/// writer has a single frame (per-writer order is only defined for a writer
+/// that issues its frames one after the other)
+fn nframes(ep: &str, kind: char, n: usize) -> usize { if ep == "wsserver" && kind == 'r' { 1 } else { n } }
+
 fn kinds_for(rng: &mut Rng, ep: &str, nw: usize) -> Vec<char> {
     (0..nw).map(|_| match ep {
         "client" | "aclient" | "wsclient" => if rng.chance(3, 10) { 'c' } else { 'n' },
@@ -976,8 +991,8 @@ fn gen_cases(seed: u64, thorough: bool) -> Vec<String> {
                 let nw = match j { 0 => 32, 1 => 16, 2 => *rng.pick(&[1usize, 2, 3]), _ => rng.range(2, 12) as usize };
                 let kinds = kinds_for(&mut rng, ep, nw);
                 let (mut big_left, mut huge_left) = (if thorough { 3 } else { 2 }, if rep % 2 == 1 { 1 } else { 0 });
-                let totals: Vec<Vec<usize>> = (0..nw).map(|_| {
-                    let n = if nw >= 16 { rng.range(1, 2) } else { rng.range(1, 3) } as usize;
+                let totals: Vec<Vec<usize>> = (0..nw).map(|t| {
+                    let n = nframes(ep, kinds[t], if nw >= 16 { rng.range(1, 2) } else { rng.range(1, 3) } as usize);
                     (0..n).map(|_| pick_total(&mut rng, &mut big_left, &mut huge_left, thorough, ws)).collect()
                 }).collect();
                 let rcv = if rng.chance(1, 4) { 4096 } else { 0 };
@@ -1003,7 +1018,7 @@ fn gen_cases(seed: u64, thorough: bool) -> Vec<String> {
             let mut kinds = kinds_for(&mut rng, ep, nw);
             if ep == "wsserver" { kinds[0] = 'r'; }
             let vsize = 6 * MIB + rng.below(5000) as usize;
-            let totals: Vec<Vec<usize>> = (0..nw).map(|t| if t == 0 { vec![vsize] } else { (0..2).map(|_| 48 + 16 + rng.below(1500) as usize).collect() }).collect();
+            let totals: Vec<Vec<usize>> = (0..nw).map(|t| if t == 0 { vec![vsize] } else { (0..nframes(ep, kinds[t], 2)).map(|_| 48 + 16 + rng.below(1500) as usize).collect() }).collect();
             out.push(case_line(0, ep, "stall", &totals, &kinds, 0, 4096, 400, Some(0), 0, rng.below(3), rng.next() & 0xffff_ffff));
         }
         // (3) a call abandoned while its request is being written to a stalled peer
